@@ -1,6 +1,6 @@
 (** Non-vacuity of the growth theorems (Props/C09.v, Props/C10.v): concrete reachable states that meet
     their hypotheses, with a non-empty backlog. *)
-From JR Require Import Pool PoolBase PoolInvDefs PoolInvE PoolInvG PoolInvH PoolSafety PoolLifecycle PoolGrowth PoolFifo.
+From JR Require Import Pool PoolBase PoolInvDefs PoolInvE PoolInvG PoolInvH PoolSafety PoolLifecycle PoolGrowth PoolFifo PoolProgress.
 
 Definition ex_progs (c : nat) : list op :=
   match c with 0%nat => [OStart] | 1%nat => [OEnqueue; OEnqueue; OEnqueue] | _ => [] end.
@@ -40,3 +40,15 @@ Definition ex_fifo_sched : list (thr * bool) :=
   repeat (TC 0%nat, false) 30 ++ repeat (TC 1%nat, false) 80 ++ repeat (TW 0%nat, false) 60.
 Example ex_fifo_log : start_log (run ex_fifo_sched (init 1 0 ex_progs)) = [2; 1; 0]%nat.
 Proof. vm_compute. reflexivity. Qed.
+
+(** progress, non-vacuity: stop() blocked on the pool lock, which a worker holds between taking a task and
+    beginning its body; the controlling thread has no step (not even a timeout), the worker has one *)
+Definition ex_stop_progs (c : nat) : list op :=
+  match c with 0%nat => [OStart; OStop] | 1%nat => [OEnqueue] | _ => [] end.
+Definition ex_stop_sched : list (thr * bool) :=
+  repeat (TC 1%nat, false) 20 ++ repeat (TC 0%nat, false) 12 ++ repeat (TW 0%nat, false) 3 ++ repeat (TC 0%nat, false) 2.
+Example ex_stop_blocked :
+  let s := run ex_stop_sched (init 2 0 ex_stop_progs) in
+  stop_region (ctl s) = true /\ step s (TC 0%nat) false = None /\ step s (TC 0%nat) true = None /\
+  lock s = Some (TW 0%nat, 1%nat) /\ wpc (ws s 0%nat) = WActInc /\ step s (TW 0%nat) false <> None.
+Proof. cbv zeta. repeat split; try (vm_compute; reflexivity). vm_compute. discriminate. Qed.
